@@ -23,50 +23,14 @@ Lemma e1_inflight s : reachable s -> chain_ok (all_log s) /\ v_last s = last_ent
 Proof. intros R. split; [exact (i_chain _ (reachable_inv s R)) | exact (i_last _ (reachable_inv s R))]. Qed.
 
 (* ---- C06 -------------------------------------------------------------------------------------------------- *)
-(* [ack_persisted] is FALSE of the model since the branch "a metadata write replays a key stored by another kind of
-   write" answers success without an entry (see Properties/C06.v, C06_ack_refuted). What holds unconditionally: *)
-Theorem e1_ack_weak s : reachable s ->
-  forall t th x, get_thread (threads s) t = Some th -> t_resp th = Some (ROk x) -> rq_dry (t_req th) = false ->
-    (exists e, In e (persisted s) /\ answers t th x e) \/ replay_mismatch (persisted s) th x.
+(* acknowledged means persisted, unconditionally: a success answer to a non-preview write has its entry on disk --
+   built by the request itself, or (replay) stored under the request's idempotency key and accepted by
+   [is_outcome_of] (a key that stored the outcome of another request is refused with [EKeyReused]) *)
+Theorem e1_ack s : reachable s -> ack_persisted s.
 Proof.
   intros R t th x Hget Hr Hd. apply reachable_inv in R.
   pose proof (i_thr _ R _ _ (look_get _ _ _ Hget)) as Hti. apply tinv_erase_2 in Hti.
   exact (ti_ok _ _ _ _ _ Hti x Hr Hd).
-Qed.
-
-(* every request carrying a key that is on disk has the kind of that entry *)
-Definition ik_kind_consistent_b (s : state) : bool :=
-  forallb (fun p => let rq := t_req (snd p) in
-                    N.eqb (rq_ik rq) 0 ||
-                    forallb (fun e => negb (N.eqb (e_ik e) (rq_ik rq)) || same_kind (e_kind e) (rq_kind rq)) (persisted s))
-          (threads s).
-
-Lemma get_in l t th : get_thread l t = Some th -> In (t, th) l.
-Proof.
-  induction l as [|[u x] r IH]; simpl; [discriminate|].
-  destruct (Nat.eqb t u) eqn:E; intros H.
-  - apply Nat.eqb_eq in E. inversion H; subst. auto.
-  - auto.
-Qed.
-
-(* the hypothesis is about the FINAL state only: the disk only grows, so the offending entry is still there *)
-Theorem e1_ack_partial s : reachable s -> ik_kind_consistent_b s = true -> ack_persisted s.
-Proof.
-  intros R Hc t th x Hget Hr Hd.
-  destruct (e1_ack_weak s R t th x Hget Hr Hd) as [H|(_ & _ & Hik & _ & e & Hin & Hek & Hsk)]; auto.
-  exfalso. unfold ik_kind_consistent_b in Hc. rewrite forallb_forall in Hc.
-  specialize (Hc (t, th) (get_in _ _ _ Hget)). cbn in Hc.
-  apply orb_true_iff in Hc. destruct Hc as [Hc|Hc]; [apply N.eqb_eq in Hc; contradiction|].
-  rewrite forallb_forall in Hc. specialize (Hc e Hin). rewrite Hek, N.eqb_refl, Hsk in Hc. discriminate.
-Qed.
-
-(* transactions are not affected: a create / revert that answers success has its entry *)
-Theorem e1_ack_tx s : reachable s ->
-  forall t th x, get_thread (threads s) t = Some th -> t_resp th = Some (ROk x) -> rq_dry (t_req th) = false ->
-    is_tx_kind (rq_kind (t_req th)) = true -> exists e, In e (persisted s) /\ answers t th x e.
-Proof.
-  intros R t th x Hget Hr Hd Hk.
-  destruct (e1_ack_weak s R t th x Hget Hr Hd) as [H|(Hm & _)]; auto. unfold tx_th in Hm. congruence.
 Qed.
 
 Lemma owner_entry s : Inv s -> forall e, In e (persisted s) ->
